@@ -10,7 +10,11 @@ package objectsets
 //                                       reconcilers, real ObjectDuplicate preflight) with only the innermost
 //                                       per-phase worker (the `phaseReconciler` interface) replaced by a recorder:
 //                                       the trace is the sequence of ReconcilePhase / TeardownPhase calls with
-//                                       the objects each call was handed.
+//                                       the objects each call was handed.  Phases that carry a class are NOT
+//                                       replaced: they go through the real objectSetRemotePhaseReconciler
+//                                       (desiredObjectSetPhase -> SetPhase) against the fake client, which records
+//                                       the ObjectSetPhase it is asked to create -- with its .spec.objects -- or
+//                                       to delete; what exists of the ObjectSetPhase beforehand is scenario input.
 //
 // Slices are named by content ("s<ids>"), mirroring the content-hash naming of the encoder.
 
@@ -24,6 +28,7 @@ import (
 	"time"
 
 	"github.com/go-logr/logr"
+	corev1 "k8s.io/api/core/v1"
 	apierrors "k8s.io/apimachinery/pkg/api/errors"
 	"k8s.io/apimachinery/pkg/api/meta"
 	metav1 "k8s.io/apimachinery/pkg/apis/meta/v1"
@@ -48,6 +53,7 @@ import (
 type c14LPhase struct {
 	Inl    []int   `json:"inl"`    // objects inline in the phase
 	Chunks [][]int `json:"chunks"` // contents of the slices the phase references, in order
+	Cls    bool    `json:"cls"`    // the phase carries a class: delegated to an ObjectSetPhase controller
 }
 
 type c14LScn struct {
@@ -57,7 +63,12 @@ type c14LScn struct {
 	Missing [][]int     `json:"missing"` // contents whose ObjectSlice does not exist
 	Owned   [][]int     `json:"owned"`   // contents whose ObjectSlice already lists the ObjectSet as owner
 	Wait    int         `json:"wait"`    // teardown of this phase index reports "not done yet" (-1: none)
+	// per phase index (only looked at for phases with cls): what exists of the phase's ObjectSetPhase object:
+	// 0 nothing, 1 no status yet, 2 Available=True, 3 Available=False, 4 Available=True but not controlled by the ObjectSet
+	Rem []int `json:"rem"`
 }
+
+const c14Class = "hosted-cluster"
 
 const c14NS = "ns"
 
@@ -101,6 +112,8 @@ type c14Client struct {
 	client.Client
 	objectSet *corev1alpha1.ObjectSet
 	slices    map[string]*corev1alpha1.ObjectSlice
+	phases    map[string]*corev1alpha1.ObjectSetPhase // key ns/name
+	calls     *[]string                               // shared with the per-phase recorder: one ordered log
 	updates   []string
 	patched   bool
 	other     []string
@@ -120,6 +133,17 @@ func (c *c14Client) Get(_ context.Context, key client.ObjectKey, obj client.Obje
 			return apierrors.NewNotFound(schema.GroupResource{Resource: "objectslices"}, key.Name)
 		}
 		s.DeepCopyInto(o)
+		return nil
+	case *corev1alpha1.ObjectSetPhase:
+		p, ok := c.phases[key.Namespace+"/"+key.Name]
+		if !ok {
+			return apierrors.NewNotFound(schema.GroupResource{Resource: "objectsetphases"}, key.Name)
+		}
+		p.DeepCopyInto(o)
+		return nil
+	case *corev1.Namespace:
+		// remote phase teardown looks at the namespace: it exists and is not being deleted
+		*o = corev1.Namespace{ObjectMeta: metav1.ObjectMeta{Name: key.Name}}
 		return nil
 	}
 	panic(fmt.Sprintf("c14Client.Get: unexpected type %T", obj))
@@ -157,12 +181,47 @@ func (c *c14Client) Patch(_ context.Context, obj client.Object, _ client.Patch, 
 	return nil
 }
 
+// c14PhaseOf maps the name of an ObjectSetPhase back to the phase of the ObjectSet it belongs to.
+func (c *c14Client) c14PhaseOf(name string) string {
+	if c.objectSet != nil && strings.HasPrefix(name, c.objectSet.Name+"-") {
+		return strings.TrimPrefix(name, c.objectSet.Name+"-")
+	}
+	return "?" + name
+}
+
 func (c *c14Client) Create(_ context.Context, obj client.Object, _ ...client.CreateOption) error {
+	switch o := obj.(type) {
+	case *corev1alpha1.ObjectSetPhase:
+		// a delegated phase is handed over: the ObjectSetPhase controller rolls out exactly .spec.objects
+		k := o.Namespace + "/" + o.Name
+		if _, ok := c.phases[k]; ok {
+			return apierrors.NewAlreadyExists(schema.GroupResource{Resource: "objectsetphases"}, o.Name)
+		}
+		o.UID = types.UID("uid-" + o.Name)
+		o.Generation = 1
+		c.phases[k] = o.DeepCopy()
+		call := "Q:" + c.c14PhaseOf(o.Name) + ":" + c14IDs(o.Spec.Objects)
+		if o.Labels[corev1alpha1.ObjectSetPhaseClassLabel] != c14Class || !metav1.IsControlledBy(o, c.objectSet) {
+			c.other = append(c.other, "objectsetphase-class-or-owner:"+o.Name)
+		}
+		*c.calls = append(*c.calls, call)
+		return nil
+	}
 	c.other = append(c.other, fmt.Sprintf("create:%T", obj))
 	return nil
 }
 
 func (c *c14Client) Delete(_ context.Context, obj client.Object, _ ...client.DeleteOption) error {
+	switch o := obj.(type) {
+	case *corev1alpha1.ObjectSetPhase:
+		k := o.Namespace + "/" + o.Name
+		if _, ok := c.phases[k]; !ok {
+			return apierrors.NewNotFound(schema.GroupResource{Resource: "objectsetphases"}, o.Name)
+		}
+		// stays around (finalizer of the ObjectSetPhase controller) until that controller has cleaned up
+		*c.calls = append(*c.calls, "X:"+c.c14PhaseOf(o.Name)+":")
+		return nil
+	}
 	c.other = append(c.other, fmt.Sprintf("delete:%T", obj))
 	return nil
 }
@@ -201,7 +260,7 @@ func (c *c14Cache) Watch(context.Context, client.Object, runtime.Object) error  
 
 // c14PhaseRec replaces the innermost per-phase worker and records what it is handed.
 type c14PhaseRec struct {
-	calls []string
+	calls *[]string
 	wait  string
 }
 
@@ -209,14 +268,14 @@ func (p *c14PhaseRec) ReconcilePhase(
 	_ context.Context, _ controllers.PhaseObjectOwner, phase corev1alpha1.ObjectSetTemplatePhase,
 	_ probing.Prober, _ []controllers.PreviousObjectSet,
 ) ([]client.Object, controllers.ProbingResult, error) {
-	p.calls = append(p.calls, "R:"+phase.Name+":"+c14IDs(phase.Objects))
+	*p.calls = append(*p.calls, "R:"+phase.Name+":"+c14IDs(phase.Objects))
 	return nil, controllers.ProbingResult{}, nil
 }
 
 func (p *c14PhaseRec) TeardownPhase(
 	_ context.Context, _ controllers.PhaseObjectOwner, phase corev1alpha1.ObjectSetTemplatePhase,
 ) (bool, error) {
-	p.calls = append(p.calls, "T:"+phase.Name+":"+c14IDs(phase.Objects))
+	*p.calls = append(*p.calls, "T:"+phase.Name+":"+c14IDs(phase.Objects))
 	return phase.Name != p.wait, nil
 }
 
@@ -224,10 +283,56 @@ func (p *c14PhaseRec) TeardownPhase(
 
 func c14Valid(s c14LScn) bool {
 	switch s.Mode {
-	case "load", "active", "archived", "deleted":
+	case "load":
+		return true // the loader alone: `rem` is not looked at
+	case "active", "archived", "deleted":
+		for _, r := range s.Rem {
+			if r < 0 || r > 4 {
+				return false
+			}
+		}
 		return true
 	}
 	return false
+}
+
+// c14SeedPhases creates what the scenario says exists of the ObjectSetPhase objects of delegated phases.
+func c14SeedPhases(s c14LScn, os *corev1alpha1.ObjectSet, c *c14Client) {
+	c.phases = map[string]*corev1alpha1.ObjectSetPhase{}
+	for i, ph := range s.Phs {
+		st := 0
+		if i < len(s.Rem) {
+			st = s.Rem[i]
+		}
+		if !ph.Cls || st == 0 {
+			continue
+		}
+		name := fmt.Sprintf("%s-p%d", os.Name, i)
+		p := &corev1alpha1.ObjectSetPhase{
+			ObjectMeta: metav1.ObjectMeta{Name: name, Namespace: c14NS, UID: types.UID("uid-" + name), Generation: 1,
+				Labels: map[string]string{corev1alpha1.ObjectSetPhaseClassLabel: c14Class}},
+		}
+		p.Spec.Revision = 1
+		ctl := true
+		ref := metav1.OwnerReference{APIVersion: corev1alpha1.GroupVersion.String(), Kind: "ObjectSet",
+			Name: os.Name, UID: os.UID, Controller: &ctl}
+		cond := metav1.Condition{Type: corev1alpha1.ObjectSetPhaseAvailable, ObservedGeneration: 1,
+			Reason: "Scripted", Message: "scripted"}
+		switch st {
+		case 2:
+			cond.Status = metav1.ConditionTrue
+			p.Status.Conditions = []metav1.Condition{cond}
+		case 3:
+			cond.Status = metav1.ConditionFalse
+			p.Status.Conditions = []metav1.Condition{cond}
+		case 4:
+			cond.Status = metav1.ConditionTrue
+			p.Status.Conditions = []metav1.Condition{cond}
+			ref.Name, ref.UID = "somebody-else", types.UID("other-uid")
+		}
+		p.OwnerReferences = []metav1.OwnerReference{ref}
+		c.phases[c14NS+"/"+name] = p
+	}
 }
 
 var c14Scheme = func() *runtime.Scheme {
@@ -259,6 +364,9 @@ func c14Exec(s c14LScn) string {
 	}
 	for i, ph := range s.Phs {
 		p := corev1alpha1.ObjectSetTemplatePhase{Name: fmt.Sprintf("p%d", i), Objects: c14Objs(ph.Inl)}
+		if ph.Cls {
+			p.Class = c14Class
+		}
 		for _, ch := range ph.Chunks {
 			name := "s" + c14Key(ch)
 			p.Slices = append(p.Slices, name)
@@ -343,7 +451,10 @@ func c14Ctl(s c14LScn, os *corev1alpha1.ObjectSet, c *c14Client) (string, []stri
 	controller := newGenericObjectSetController(
 		adapters.NewObjectSet, newGenericObjectSetPhase, adapters.NewObjectSlice,
 		c, logr.Discard(), scheme, dc, c, nil, meta.NewDefaultRESTMapper(nil))
-	rec := &c14PhaseRec{wait: "-"}
+	c14SeedPhases(s, os, c)
+	var calls []string
+	c.calls = &calls
+	rec := &c14PhaseRec{wait: "-", calls: &calls}
 	if s.Wait >= 0 {
 		rec.wait = fmt.Sprintf("p%d", s.Wait)
 	}
@@ -376,7 +487,17 @@ func c14Ctl(s c14LScn, os *corev1alpha1.ObjectSet, c *c14Client) (string, []stri
 	if len(c.objectSet.Finalizers) == 0 {
 		fin = "removed"
 	}
-	return fmt.Sprintf("%s K=%s U=%s A=%s F=%s", out, strings.Join(rec.calls, "+"), strings.Join(c.updates, ","), arch, fin), c.other
+	// the status the ObjectSet reports
+	avail := "-"
+	if cond := meta.FindStatusCondition(c.objectSet.Status.Conditions, corev1alpha1.ObjectSetAvailable); cond != nil {
+		avail = string(cond.Status)
+	}
+	trans := "-"
+	if cond := meta.FindStatusCondition(c.objectSet.Status.Conditions, corev1alpha1.ObjectSetInTransition); cond != nil {
+		trans = string(cond.Status)
+	}
+	return fmt.Sprintf("%s K=%s U=%s A=%s F=%s V=%s I=%s", out, strings.Join(calls, "+"), strings.Join(c.updates, ","),
+		arch, fin, avail, trans), c.other
 }
 
 func c14Tags(s c14LScn, out string) []string {
@@ -403,6 +524,41 @@ func c14Tags(s c14LScn, out string) []string {
 	if len(s.Missing) > 0 {
 		tags = append(tags, "missing")
 	}
+	ncls, nclsSliced, nclsMulti := 0, 0, 0
+	for _, p := range s.Phs {
+		if p.Cls {
+			ncls++
+			if len(p.Chunks) > 0 {
+				nclsSliced++
+			}
+			if len(p.Chunks) > 1 {
+				nclsMulti++
+			}
+		}
+	}
+	switch {
+	case ncls == 0:
+		tags = append(tags, "phases=local")
+	case ncls == len(s.Phs):
+		tags = append(tags, "phases=delegated")
+	default:
+		tags = append(tags, "phases=mixed")
+	}
+	if nclsSliced > 0 {
+		tags = append(tags, "delegated+sliced")
+	}
+	if nclsMulti > 0 {
+		tags = append(tags, "delegated+several-slices")
+	}
+	if strings.Contains(out, "Q:p") {
+		tags = append(tags, "objectsetphase-created")
+	}
+	if strings.Contains(out, "X:p") {
+		tags = append(tags, "objectsetphase-deleted")
+	}
+	if strings.Contains(out, "V=False") {
+		tags = append(tags, "unavailable")
+	}
 	if strings.Contains(out, " U=s") {
 		tags = append(tags, "ownerref-added")
 	}
@@ -422,6 +578,9 @@ func TestVerifC14Load(t *testing.T) {
 		s.T = "load"
 		if s.Phs == nil {
 			s.Phs = []c14LPhase{}
+		}
+		if s.Rem == nil {
+			s.Rem = []int{}
 		}
 		for i := range s.Phs {
 			if s.Phs[i].Inl == nil {
@@ -525,6 +684,60 @@ func TestVerifC14Load(t *testing.T) {
 				}
 				run(c14LScn{Mode: mode, Phs: phs, Wait: -1})
 				count++
+				// every non-empty set of phases delegated (class set).  The loader alone does not care what
+				// exists of the ObjectSetPhase; the controller is run for every state of every delegated
+				// phase's ObjectSetPhase (two delegated phases: all 25 combinations in the thorough tier,
+				// equal states plus the mixes with "Available" in the quick tier).
+				for mask := 1; mask < 1<<len(phs); mask++ {
+					dphs := make([]c14LPhase, len(phs))
+					copy(dphs, phs)
+					var del []int
+					for i := range dphs {
+						if mask&(1<<i) != 0 {
+							dphs[i].Cls = true
+							del = append(del, i)
+						}
+					}
+					if mode == "load" {
+						run(c14LScn{Mode: mode, Phs: dphs, Wait: -1})
+						count++
+						for _, d := range distinct {
+							run(c14LScn{Mode: mode, Phs: dphs, Missing: [][]int{d}, Wait: -1})
+							count++
+						}
+						continue
+					}
+					var rems [][]int
+					if len(del) == 1 {
+						for st := 0; st <= 4; st++ {
+							rem := make([]int, len(phs))
+							rem[del[0]] = st
+							rems = append(rems, rem)
+						}
+					} else {
+						for a := 0; a <= 4; a++ {
+							for b := 0; b <= 4; b++ {
+								if r.Thorough() || a == b || a == 2 || b == 2 {
+									rems = append(rems, []int{a, b})
+								}
+							}
+						}
+					}
+					for _, rem := range rems {
+						run(c14LScn{Mode: mode, Phs: dphs, Rem: rem, Wait: -1})
+						count++
+					}
+					if mode != "active" {
+						// a local phase whose teardown is pending, next to delegated ones
+						for w := range dphs {
+							if !dphs[w].Cls {
+								run(c14LScn{Mode: mode, Phs: dphs, Rem: rems[len(rems)-1], Wait: w})
+								run(c14LScn{Mode: mode, Phs: dphs, Rem: rems[0], Wait: w})
+								count += 2
+							}
+						}
+					}
+				}
 				for _, d := range distinct {
 					run(c14LScn{Mode: mode, Phs: phs, Missing: [][]int{d}, Wait: -1})
 					run(c14LScn{Mode: mode, Phs: phs, Owned: [][]int{d}, Wait: -1})
@@ -568,7 +781,13 @@ func TestVerifC14Load(t *testing.T) {
 				ph.Chunks = append(ph.Chunks, ch)
 				all = append(all, ch)
 			}
+			// delegated phases, mixed with local ones; any state of their ObjectSetPhase
+			ph.Cls = rng.Intn(3) == 0
+			s.Rem = append(s.Rem, rng.Intn(5))
 			s.Phs = append(s.Phs, ph)
+		}
+		if rng.Intn(6) == 0 {
+			s.Rem = nil // nothing exists yet of any ObjectSetPhase
 		}
 		for _, ch := range all {
 			if rng.Intn(12) == 0 {
@@ -584,4 +803,5 @@ func TestVerifC14Load(t *testing.T) {
 		run(s)
 	}
 	run(c14LScn{Mode: "frob", Wait: -1})
+	run(c14LScn{Mode: "active", Phs: []c14LPhase{{Inl: []int{1}, Cls: true}}, Rem: []int{7}, Wait: -1})
 }
